@@ -18,3 +18,59 @@ CHECKS["C17"] = {
     "explanation": "bounded symbolic execution of the real alphabet code; the letter is one symbolic byte covering all 256 values in a single query per law",
     "outside": "definition strings longer than the stated length; non-ASCII definitions beyond the concrete samples",
 }
+
+
+def _al(func, which, n, m, **kw):
+    p = {"aligner": which, "n": n, "m": m, "k": 2, "qual": 0, "smax": 4, "gmax": 4, "split": 0}
+    p.update(kw)
+    return {"pkgdir": "align", "func": func, "math": True, "params": p}
+
+
+def c08_jobs(tier):
+    jobs = []
+    if tier == "quick":
+        lin = {0: [(2, 2), (3, 2), (2, 3), (3, 3)], 1: [(2, 2), (3, 2), (2, 3)], 2: [(2, 2), (3, 2), (2, 3)]}
+        aff = [(2, 2), (2, 3)]
+    else:
+        lin = {0: [(2, 2), (3, 2), (2, 3), (3, 3), (4, 3), (3, 4)], 1: [(2, 2), (3, 2), (2, 3), (3, 3)], 2: [(2, 2), (3, 2), (2, 3), (3, 3)]}
+        aff = [(2, 2), (2, 3), (3, 2), (3, 3)]
+    for which in (0, 1, 2):
+        for (n, m) in lin[which]:
+            jobs.append(_al("VerifC08_Optimal", which, n, m))
+        jobs.append(_al("VerifC08_Optimal", which, 2, 2, qual=1))
+    for which in (3, 4, 5):
+        for (n, m) in aff:
+            jobs.append(_al("VerifC08_Optimal", which, n, m))
+        jobs.append(_al("VerifC08_Optimal", which, 2, 2, qual=1))
+    if tier == "thorough":
+        jobs.append(_al("VerifC08_Optimal", 0, 3, 3, k=3))
+        jobs.append(_al("VerifC08_Optimal", 0, 4, 4, split=1))
+    return jobs
+
+
+def c09_jobs(tier):
+    jobs = []
+    shapes = [(2, 2), (3, 2), (2, 3)] if tier == "quick" else [(2, 2), (3, 2), (2, 3), (3, 3)]
+    for which in range(6):
+        sh = shapes if which < 3 else (shapes[:2] if tier == "quick" else shapes[:3])
+        for (n, m) in sh:
+            jobs.append(_al("VerifC09_WellFormed", which, n, m))
+        for kind in range(6):
+            jobs.append(_al("VerifC09_IllTyped", which, 2, 2, kind=kind))
+    return jobs
+
+
+CHECKS["C09"] = {
+    "jobs": c09_jobs,
+    "functions": ["align.{NW,SW,Fitted,NWAffine,SWAffine,FittedAffine}.Align", "the twelve align*Letters/QLetters kernels", "align.Format", "featPair"],
+    "explanation": "same symbolic setting as C08; per trace-back path the pairs are checked for abutment, block/gap shape, bounds, recomputed per-pair score, Letters==QLetters, Format; ill-typed inputs (one arbitrary byte, wrong alphabets/types/matrices) must give errors, not panics",
+    "outside": "as C08",
+}
+
+
+CHECKS["C08"] = {
+    "jobs": c08_jobs,
+    "functions": ["align.{NW,SW,Fitted,NWAffine,SWAffine,FittedAffine}.Align", "the twelve align*Letters/QLetters kernels", "max2/max3/add", "featPair"],
+    "explanation": "symbolic letters, fully symbolic scoring matrix; oracle = explicit enumeration of all competing alignments; max-plus DP in SMT Int with overflow obligations",
+    "outside": "sequences longer than the stated n x m, alphabets with more than k letters, scores outside [-4,4]",
+}
